@@ -24,10 +24,18 @@ func (opt Option) AsIR(schemas ast.Schemas, builders ast.Builders, root ast.Buil
 		assignments = append(assignments, irAssignment)
 	}
 
+	args := make([]ast.Argument, 0, len(opt.Arguments))
+	for _, arg := range opt.Arguments {
+		args = append(args, arg.DeepCopy())
+	}
+
+	comments := make([]string, 0, len(opt.Comments))
+	comments = append(comments, opt.Comments...)
+
 	return ast.Option{
 		Name:        opt.Name,
-		Comments:    opt.Comments,
-		Args:        opt.Arguments,
+		Comments:    comments,
+		Args:        args,
 		Assignments: assignments,
 	}, nil
 }
@@ -63,11 +71,15 @@ type AssignmentValue struct {
 }
 
 func (value AssignmentValue) AsIR(schemas ast.Schemas, assignmentPath ast.Path) (ast.AssignmentValue, error) {
+	// the rule is applied to many options, for every language and on every run:
+	// each assignment gets its own copy of what the rule holds.
 	if value.Argument != nil {
-		return ast.AssignmentValue{Argument: value.Argument}, nil
+		irValue := ast.AssignmentValue{Argument: value.Argument}
+		return irValue.DeepCopy(), nil
 	}
 	if value.Constant != nil {
-		return ast.AssignmentValue{Constant: value.Constant}, nil
+		irValue := ast.AssignmentValue{Constant: value.Constant}
+		return irValue.DeepCopy(), nil
 	}
 	if value.Envelope != nil {
 		envelopeType := assignmentPath.Last().Type
